@@ -21,7 +21,7 @@ LEVEL_TEXT = ("c05_store/delete/touch/flush/arith_partial: for EVERY server stat
               "arguments, the line Spec/Server.v answers is accepted by the client's reply table for that verb and is read as the "
               "documented value (True/False/None, the new counter, MemcacheClientError for a non-numeric item); c05_noreply_effect, "
               "c05_reply_iff: noreply never changes the effect and a reply is sent exactly when the command does not say noreply; "
-              "c05_e2e_delete/touch/flush/arith/store: on a connected client with nothing pending, a fault-free transport and "
+              "c05_e2e_delete/touch/flush/arith/store: on a client that is connected with nothing pending or closed (it then connects first; parameter fr of the theorems), a fault-free transport and "
               "the specification server as peer, run_op of set/add/replace/append/prepend (one key), delete, incr, decr, touch, "
               "flush_all returns exactly the documented result, advances the server by exactly that command and leaves nothing "
               "unread -- for every server state, key, value and argument, hence along every history of such calls; c05_e2e_cas: the "
